@@ -506,7 +506,20 @@ PROPS["C16"] = dict(
 
 PROPS["C09"] = dict(
     level="model_checking",
-    rule="concurrent half (c09_concurrent, gsched): 2-3 real threads on the "
+    rule="sequential half (c09_allocators, seqx history BFS, 27 cases): every "
+         "history up to depth 4 (quick) / 6-12 (thorough) of allocate / free "
+         "/ clear over size alphabets hitting every class boundary, with the "
+         "operation's (impersonated) thread in the alphabet so blocks are "
+         "freed on other threads than they were allocated on: FixedSizeHeap, "
+         "fresh SizedHeaps, Pow_2_BlockHeap for every class 2^3..2^16, page "
+         "pool + PageHeap, PerThreadStorage / PerSocketStorage objects, a "
+         "private PerBackend (offset split path), VariableSizeHeap, BumpHeap "
+         "(both overloads), BumpWithMallocHeap / per-iteration allocator, "
+         "LargeArray (all allocate variants). Shadow model = interval map of "
+         "live blocks + per-block canaries re-checked after every step; "
+         "blocks must lie inside memory the library itself mapped (mmap "
+         "interposed); alignment 8 / 128 / 2 MiB relative to the library's "
+         "mapping. concurrent half (c09_concurrent, gsched): 2-3 real threads on the "
          "shared allocator paths -- FixedSizeHeap allocate / deallocate with "
          "every block freed on a DIFFERENT thread than it was allocated on, "
          "page pool alloc / free across threads and sockets, "
@@ -519,11 +532,11 @@ PROPS["C09"] = dict(
          "per size; live per-thread-storage offsets disjoint; non-trivial = "
          "distinct trace hash among executions with >= 1 deviation",
     bound_note="per-cell bound_completed in coverage.cells",
-    assumptions=E1_ASSUME,
-    deadline=dict(quick=200, thorough=2400),
-    technique="stateless model checking of the implementation: exhaustive "
-              "deviation-bounded schedule enumeration (gsched) of the shared "
-              "allocator paths",
+    assumptions=E2_ASSUME + E1_ASSUME,
+    deadline=dict(quick=240, thorough=2400),
+    technique="explicit-state BFS over allocation histories (seqx, shadow "
+              "interval map + canaries) and exhaustive deviation-bounded "
+              "schedule enumeration (gsched) of the shared allocator paths",
     level_text="every schedule with <= d deviations of concurrent "
                "allocate/free (incl. cross-thread free) on the real heaps, "
                "page pool and per-thread-storage backend",
@@ -531,7 +544,8 @@ PROPS["C09"] = dict(
                "histories (size classes, bump heaps, per-iteration heap, "
                "LargeArray) are the seqx part",
     design_ref="DESIGN.md 2, 3, 7/C09",
-    parts=[dict(engine="e1", harness="c09_concurrent")],
+    parts=[dict(engine="e2", harness="c09_allocators", weight=3),
+           dict(engine="e1", harness="c09_concurrent", weight=1)],
 )
 
 NOT_APPLICABLE = {}
